@@ -446,8 +446,9 @@ def _utf8_trim(b, n):
             b = b[:-1]
 
 
-def catalog_boundaries(lens=(0, 1, 125, 126, 65535, 65536), comp=True):
-    """C14 catalogue: boundary lengths x {text, binary} x {plain, compressed}."""
+def catalog_boundaries(lens=(0, 1, 125, 126, 65535, 65536), comp=True, slim=False):
+    """C14 catalogue: boundary lengths x {text, binary} x {plain, compressed}; slim: only
+    (text, plain) and (binary, compressed) per length."""
     ent = []
     for n in lens:
         text = (("héllo wörld " * (n // 12 + 1)).encode("utf-8"))[:n]
@@ -456,9 +457,11 @@ def catalog_boundaries(lens=(0, 1, 125, 126, 65535, 65536), comp=True):
         cbinary = _incompressible(n, 9) if n <= 4096 else (_incompressible(2048, 9) + b"\x00" * (n - 4096) + _incompressible(2048, 10))
         binary = _incompressible(n, 7) if n <= 4096 else (_incompressible(2048, 7) + b"\x00" * (n - 4096) + _incompressible(2048, 8))
         ent.append(("text", text, False))
-        ent.append(("binary", binary, False))
+        if not slim:
+            ent.append(("binary", binary, False))
         if comp:
-            ent.append(("text", ctext, True))
+            if not slim:
+                ent.append(("text", ctext, True))
             ent.append(("binary", cbinary, True))
     # the same content must not appear twice with the same kind/comp: ident() maps content -> first id
     return Catalog(ent)
@@ -550,6 +553,145 @@ class ReceiverReal:
                 self.pongs.append(len(pl) if same else -1)
         return {"delivered": [self.cat.ident(e[1]) for e in self.side.events if e[0] == "msg"],
                 "closed": bool(self.side.closed()), "sent1009": self.sent1009, "pongs": list(self.pongs)}
+
+    def close(self):
+        self.env.close()
+
+
+# ---------------------------------------------------------------------------------------------
+# Real client <-> real server with the harness as frame-level middlebox (C14 a, WsChannel)
+
+def encode_header(fin_, rsv_, op, masked, n, key=MASK_KEY):
+    """Middlebox plumbing; cross-checked against WsFrameCodec.EncodeHeader by the C14 check
+    (TLC-enumerated header table) before it is used."""
+    b0 = (fin_ << 7) | (rsv_ << 4) | op
+    m = 0x80 if masked else 0
+    if n < 126:
+        h = bytes([b0, m | n])
+    elif n <= 0xFFFF:
+        h = bytes([b0, m | 126]) + n.to_bytes(2, "big")
+    else:
+        h = bytes([b0, m | 127]) + n.to_bytes(8, "big")
+    return h + (bytes(key) if masked else b"")
+
+
+def refragment(frames, k, ctl, masked, rng):
+    """Re-cut every data frame into up to k pieces, insert a control frame in every gap."""
+    out = []
+    for hdr, key, pl in frames:
+        op, r = opcode(hdr), rsv(hdr)
+        if op >= 8 or k <= 1 or not fin(hdr):
+            out.append(encode_header(fin(hdr), r, op, masked, len(pl)) + (xor_mask(MASK_KEY, pl) if masked else pl))
+            continue
+        n = len(pl)
+        cuts = sorted(rng.randrange(0, n + 1) for _ in range(k - 1))
+        bounds = [0] + cuts + [n]
+        for i in range(k):
+            piece = pl[bounds[i]:bounds[i + 1]]
+            last = i == k - 1
+            out.append(encode_header(1 if last else 0, r if i == 0 else 0, op if i == 0 else 0, masked, len(piece))
+                       + (xor_mask(MASK_KEY, piece) if masked else piece))
+            if not last and ctl != "none":
+                cp = filler(rng.choice([0, 5, 125]), i)
+                out.append(encode_header(1, 0, 9 if ctl == "ping" else 10, masked, len(cp))
+                           + (xor_mask(MASK_KEY, cp) if masked else cp))
+    return out
+
+
+PAIR_GRID = [
+    # (offer given to the server in place of the client's own, server options, client options)
+    (None, {}, {}),
+    ("permessage-deflate; client_no_context_takeover; server_no_context_takeover", {"compression_level": 1}, {"compression_level": 9}),
+    ("permessage-deflate; client_max_window_bits=9; server_max_window_bits=9", {"compression_level": 6, "mem_level": 1}, {"compression_level": 6}),
+    ("permessage-deflate; server_no_context_takeover; client_max_window_bits=12", {"compression_level": 0}, {"compression_level": 1, "mem_level": 9}),
+    ("permessage-deflate; client_no_context_takeover; server_max_window_bits=10", {"compression_level": 9}, {"compression_level": 0}),
+    ("permessage-deflate; client_max_window_bits=15; server_max_window_bits=13", {"mem_level": 4}, {"compression_level": 3}),
+    ("permessage-deflate; client_max_window_bits=10; server_max_window_bits=15; client_no_context_takeover", {}, {"mem_level": 2}),
+]
+
+
+class PairReal:
+    """Real websocket_connect client <-> real WebSocketHandler server behind WsChannel's actions."""
+
+    def __init__(self, cfg, cat, grid=0, mode="cb", seed=0, record=None):
+        import random
+        self.cat = cat
+        self.rng = random.Random(seed)
+        self.env = Env()
+        self.record = record            # list collecting wire events for trace validation
+        deflate = cfg["deflate"]
+        offer, sopt, copt = PAIR_GRID[grid % len(PAIR_GRID)]
+        self.server = ServerSide(self.env, compression=dict(sopt) if deflate else None)
+        self.client = ClientSide(self.env, mode=mode, compression=dict(copt) if deflate else None)
+        head = self.client.take_request().decode("latin1")
+        lines = head.split("\r\n")
+        hs = []
+        for ln in lines[1:]:
+            if not ln:
+                continue
+            n, _, v = ln.partition(":")
+            if n.lower() == "sec-websocket-extensions" and offer:
+                v = offer
+            hs.append((n.strip(), v.strip()))
+        resp = self.server.request(hs)
+        if resp is None or not resp.startswith(b"HTTP/1.1 101"):
+            raise RuntimeError("pair handshake failed: %r" % resp)
+        self.client.stream.feed(resp)
+        self.env.settle()
+        if self.client.connect_state() != "ok":
+            raise RuntimeError("pair handshake: client %s" % self.client.connect_state())
+        self.client.conn = self.client.fut.result()
+        self.negotiated = [ln for ln in resp.decode("latin1").split("\r\n") if ln.lower().startswith("sec-websocket-extensions")]
+
+    def _sender(self, d):
+        return self.client if d == "c2s" else self.server
+
+    def _receiver(self, d):
+        return self.server if d == "c2s" else self.client
+
+    def step(self, act, args):
+        if act == "send":
+            d, mid = args
+            e = self.cat.by_id[mid]
+            msg = e["data"].decode("utf-8") if e["kind"] == "text" else e["data"]
+            if d == "c2s":
+                self.client.conn.write_message(msg, binary=e["kind"] == "binary")
+            else:
+                self.server.handler.write_message(msg, binary=e["kind"] == "binary")
+            self.env.settle()
+        elif act == "transfer":
+            d, k, ctl, seg = args
+            self.transfer(d, k, ctl, seg)
+        else:
+            raise ValueError(act)
+        return self.proj()
+
+    def transfer(self, d, k, ctl, seg):
+        src, dst = self._sender(d), self._receiver(d)
+        frames = src.take_frames()
+        if self.record is not None:
+            for hdr, key, pl in frames:
+                if opcode(hdr) < 8:
+                    self.record.append({"a": "wire", "args": [d, list(hdr + (key or b"")), len(pl)]})
+        data = b"".join(refragment(frames, k, ctl, d == "c2s", self.rng))
+        for c in chunked(data, seg, self.rng):
+            dst.feed(c)
+        # control traffic answered by the receiver (pongs) flows back unmodified
+        back = dst.take_frames()
+        ctlback = [f for f in back if opcode(f[0]) >= 8]
+        databack = [f for f in back if opcode(f[0]) < 8]
+        if databack:      # data written by the receiving side belongs to the other direction: keep it queued
+            dst.rest = b"".join(encode_header(fin(h), rsv(h), opcode(h), d == "s2c", len(p)) + (xor_mask(MASK_KEY, p) if d == "s2c" else p)
+                                for h, key, p in databack) + dst.rest
+        if ctlback:
+            src.feed(b"".join(refragment(ctlback, 1, "none", d == "s2c", self.rng)))
+            src.take_frames()
+
+    def delivered(self, side):
+        return [self.cat.ident(e[1])["id"] for e in side.events if e[0] == "msg"]
+
+    def proj(self):
+        return {"c2s": self.delivered(self.server), "s2c": self.delivered(self.client)}
 
     def close(self):
         self.env.close()
